@@ -428,8 +428,9 @@ def triclinic_contract(fname):
     return harness
 
 
-contract("C05", "mdtraj/geometry/src/geometry.cpp", "dist_mic_triclinic", cases=CASES, lang="c", replay="dist",
-         covers=["pair-iteration", "finished"])(triclinic_contract("dist_mic_triclinic"))
+for _case in CASES:  # one registration per case: the cases are explored and discharged in parallel
+    contract("C05", "mdtraj/geometry/src/geometry.cpp", "dist_mic_triclinic", cases=[_case], lang="c", replay="dist",
+             covers=["pair-iteration", "finished"])(triclinic_contract("dist_mic_triclinic"))
 
 
 # ---------------------------------------------------------------------------------------------
@@ -572,3 +573,115 @@ def distances_core(ctx, case):
         if name == "_dist_mic":
             ctx.ensure("native-kernel-gets-its-own-copy-of-the-box", b.copied)
     ctx.ensure("coordinates-and-pairs-passed-unchanged", a[0] is xyz and a[1] is pairs)
+
+
+# ---------------------------------------------------------------------------------------------
+# time-pair kernels (compute_distances_t): atom a is taken from frame t1, atom b from frame t2, the cell from frame t1
+def _t_loops(ctx, c, fname, R, n_times, n_atoms, n_pairs, store_dist, store_disp, periodic, per_pair):
+    I, J = ctx.int("I"), ctx.int("J")
+    nt, na, npairs = term(n_times), term(n_atoms), term(n_pairs)
+    t1 = lambda i: z3.Select(R["times"].mem0, 2 * term(i))
+
+    def set_ptrs(interp, env, i, j, inner):
+        if periodic:
+            interp.setvar(env, "box_matrix", Ptr(R["box"], SInt(z3.simplify(9 * t1(i))) if inner else 0))
+        if store_dist:
+            interp.setvar(env, "distance_out", Ptr(R["dout"], SInt(z3.simplify(term(i) * npairs + term(j)))))
+        if store_disp:
+            interp.setvar(env, "displacement_out", Ptr(R["disp"], SInt(z3.simplify(3 * (term(i) * npairs + term(j))))))
+
+    def ptr_inv(interp, env, i, j, inner):
+        out = []
+
+        def eq(name, region, off):
+            p = interp.getvar(env, name)
+            ok = isinstance(p, Ptr) and p.region is region
+            out.append((name, z3.And(z3.BoolVal(ok), term(p.off) == off) if ok else z3.BoolVal(False)))
+        if periodic:
+            eq("box_matrix", R["box"], 9 * t1(i) if inner else z3.IntVal(0))
+        if store_dist:
+            eq("distance_out", R["dout"], term(i) * npairs + term(j))
+        if store_disp:
+            eq("displacement_out", R["disp"], 3 * (term(i) * npairs + term(j)))
+        return out
+
+    def o_havoc(interp, env, g):
+        interp.setvar(env, "i", I)
+        set_ptrs(interp, env, I, 0, False)
+        a = [I.t >= 0]
+        if periodic:
+            a += [sel(R["box"], 9 * t1(I) + 4 * k) > 0 for k in range(3)]
+        return a
+
+    def o_inv(interp, env, g):
+        i = interp.getvar(env, "i")
+        return ptr_inv(interp, env, i, 0, False) + [("0<=i<=n_times", z3.And(term(i) >= 0, term(i) <= nt))]
+
+    def i_havoc(interp, env, g):
+        interp.setvar(env, "j", J)
+        set_ptrs(interp, env, interp.getvar(env, "i"), J, True)
+        for r in R.values():
+            r.writes.clear()
+        return [J.t >= 0]
+
+    def i_inv(interp, env, g):
+        i, j = interp.getvar(env, "i"), interp.getvar(env, "j")
+        return ptr_inv(interp, env, i, j, True) + [("0<=j<=n_pairs", z3.And(term(j) >= 0, term(j) <= npairs))]
+
+    def i_exit(interp, env, g):
+        interp.setvar(env, "j", SInt(npairs))
+        set_ptrs(interp, env, interp.getvar(env, "i"), SInt(npairs), True)
+
+    c.loop_specs[(fname, 0)] = CLoopSpec(o_havoc, o_inv, exit_state=lambda interp, env, g: interp.setvar(env, "i", SInt(nt)))
+    c.loop_specs[(fname, 1)] = CLoopSpec(i_havoc, i_inv, at_end=lambda interp, env, g: per_pair(interp, env, I, J), exit_state=i_exit)
+    return I, J
+
+
+def _dist_t(ctx, case, periodic):
+    store_dist, store_disp = case
+    fname = "dist_mic_t" if periodic else "dist_t"
+    c = ctx.load_c("mdtraj/geometry/src/geometry.cpp", [fname], **GEOM)
+    R = regions()
+    snapshot(R)
+    nt, na, npairs = ctx.int("n_times"), ctx.int("n_atoms"), ctx.int("n_pairs")
+    ctx.assume(nt >= 0, na >= 1, npairs >= 0)
+
+    def per_pair(interp, env, I, J):
+        ctx.cover("pair-iteration")
+        a = sel(R["pairs"], 2 * term(J))
+        b = sel(R["pairs"], 2 * term(J) + 1)
+        f1 = sel(R["times"], 2 * term(I))
+        f2 = sel(R["times"], 2 * term(I) + 1)
+        diff = [sel(R["xyz"], 3 * term(na) * f2 + 3 * b + k) - sel(R["xyz"], 3 * term(na) * f1 + 3 * a + k) for k in range(3)]
+        L = lambda k: sel(R["box"], 9 * f1 + 4 * k)
+        wit = [n for (_t, n) in ctx.ex.path.ghost.get("round_witness", [])]
+
+        def disp_vals(vals):
+            for k, v in enumerate(vals):
+                if periodic:
+                    ctx.ex.require(f"congruence[{k}]:out=(x_b(t2)-x_a(t1))-n*L(t1)(integer-n)", z3.Or([v == diff[k] - z3.ToReal(n) * L(k) for n in wit]))
+                    ctx.ex.require(f"wrap-bound[{k}]:|out|<=L(t1)/2", z3.And(v <= L(k) / 2, -v <= L(k) / 2))
+                else:
+                    ctx.ex.require(f"displacement[{k}]=x_b(t2)-x_a(t1)", v == diff[k])
+
+        def dist_val(d):
+            ctx.ex.require("distance>=0", d >= 0)
+            if periodic:
+                ctx.ex.require("distance^2=|wrapped-displacement|^2", z3.Or([
+                    z3.And(d * d == sum((diff[k] - z3.ToReal(w[k]) * L(k)) * (diff[k] - z3.ToReal(w[k]) * L(k)) for k in range(3)),
+                           *[z3.And(diff[k] - z3.ToReal(w[k]) * L(k) <= L(k) / 2, -(diff[k] - z3.ToReal(w[k]) * L(k)) <= L(k) / 2) for k in range(3)])
+                    for w in _triples(wit)]))
+            else:
+                ctx.ex.require("distance^2=|x_b(t2)-x_a(t1)|^2", d * d == sum(x * x for x in diff))
+        check_writes(ctx, R, I, J, npairs, store_dist, store_disp, dist_val, disp_vals)
+
+    _t_loops(ctx, c, fname, R, nt, na, npairs, store_dist, store_disp, periodic, per_pair)
+    args = [Ptr(R["xyz"], 0), Ptr(R["pairs"], 0), Ptr(R["times"], 0)] + ([Ptr(R["box"], 0)] if periodic else []) + \
+           [Ptr(R["dout"], 0) if store_dist else NULL, Ptr(R["disp"], 0) if store_disp else NULL, nt, na, npairs]
+    out = ctx.ccall(fname, *args)
+    ctx.cover("finished")
+    ctx.ensure("returns-normally", out.exc is None)
+
+
+contract("C05", "mdtraj/geometry/src/kernels/distancekernels.h", "dist_t", cases=CASES, lang="c", replay="dist", covers=["pair-iteration", "finished"])(lambda ctx, case: _dist_t(ctx, case, False))
+contract("C05", "mdtraj/geometry/src/kernels/distancekernels.h", "dist_mic_t", cases=CASES, lang="c", replay="dist", covers=["pair-iteration", "finished"])(lambda ctx, case: _dist_t(ctx, case, True))
